@@ -2202,7 +2202,14 @@ impl<'a> Socket<'a> {
         }
         if self.remote_win_len != 0 && self.timer.is_zero_window_probe() {
             tcp_trace!("stopping zero-window-probe timer");
-            self.timer.set_for_idle(cx.now(), self.keep_alive);
+            if self.remote_last_seq != self.local_seq_no {
+                // Data sent before the window closed is still unacknowledged:
+                // hand over to the retransmit timer instead of going idle.
+                let rto = self.rtte.retransmission_timeout();
+                self.timer.set_for_retransmit(cx.now(), rto);
+            } else {
+                self.timer.set_for_idle(cx.now(), self.keep_alive);
+            }
         }
 
         let payload_len = payload.len();
@@ -2501,7 +2508,13 @@ impl<'a> Socket<'a> {
                     .inner_mut()
                     .on_loss(cx.now(), in_flight);
 
-                self.pending_fast_retransmit = true;
+                if self.tx_buffer.is_empty() {
+                    // Only a FIN is in flight: there is no data segment to resend, so
+                    // rewind like a timeout does, which makes the FIN go out again.
+                    self.remote_last_seq = self.local_seq_no;
+                } else {
+                    self.pending_fast_retransmit = true;
+                }
             }
 
             // Clear the `should_retransmit` state. If we can't retransmit right
@@ -2509,6 +2522,13 @@ impl<'a> Socket<'a> {
             // infinite polling loop where `poll_at` returns `Now` but `dispatch`
             // can't actually do anything.
             self.timer.set_for_idle(cx.now(), self.keep_alive);
+
+            // If the remote window is closed nothing can be retransmitted now;
+            // keep probing, or the connection would stall with data queued.
+            if self.remote_win_len == 0 && !self.tx_buffer.is_empty() {
+                let delay = self.rtte.retransmission_timeout();
+                self.timer.set_for_zero_window_probe(cx.now(), delay);
+            }
 
             // Inform RTTE, so that it can avoid bogus measurements.
             self.rtte.on_retransmit();
